@@ -259,7 +259,7 @@ def f_num_converged(gen, report, defs_out):
          r"const Scalar resid_g = (0 <= g_i && g_i < verif_h2) ? FMUL(%s(S->m_ritz_est[g_i]), (\2)) : (Scalar)0;" % ab, {"max": 1}),
         ("conv", r"S->m_ritz_conv = \(resid (<|<=|>|>=) thresh\);",
          r"__CPROVER_assert(verif_h1 == verif_h2, @Q@Eigen: coefficient-wise comparison needs equal sizes@Q@); "
-         r"S->m_ritz_conv = BVEC_NEW(verif_h2); S->tag_conv = IVEC_NEW(verif_h2); "
+         r"if (VEC_SIZE(S->m_ritz_conv) != verif_h2) { S->m_ritz_conv = BVEC_NEW(verif_h2); S->tag_conv = IVEC_NEW(verif_h2); } else { __CPROVER_havoc_object(S->m_ritz_conv); __CPROVER_havoc_object(S->tag_conv); } "
          r"if (0 <= g_i && g_i < verif_h2) { S->m_ritz_conv[g_i] = (resid_g \1 thresh_g); S->tag_conv[g_i] = (S->tag_val[g_i] == S->tag_est[g_i]) ? S->tag_val[g_i] : -1; } "
          r"S->st_conv = S->st_ritz; S->cnt_conv = nondet_Index(); __CPROVER_assume(0 <= S->cnt_conv && S->cnt_conv <= verif_h2); "
          r"if (0 <= g_i && g_i < verif_h2) __CPROVER_assume((S->cnt_conv < verif_h2 || S->m_ritz_conv[g_i]) && (S->cnt_conv > 0 || !S->m_ritz_conv[g_i]));", {"max": 1}),
@@ -268,8 +268,9 @@ def f_num_converged(gen, report, defs_out):
     notnan = ("(S->m_ritz_val[g_i].re == S->m_ritz_val[g_i].re && CABS(S->m_ritz_val[g_i]) == CABS(S->m_ritz_val[g_i]) && CABS(S->m_ritz_est[g_i]) == CABS(S->m_ritz_est[g_i]))"
               if gen else "(S->m_ritz_val[g_i] == S->m_ritz_val[g_i] && S->m_ritz_est[g_i] == S->m_ritz_est[g_i])")
     spec = FSpec("num_converged", "Index", [("Solver *", "S"), ("Scalar", "tol")],
-                 pre=[("Ritz arrays hold ncv entries", "VEC_SIZE(S->m_ritz_val) == S->m_ncv && VEC_SIZE(S->m_ritz_est) == S->m_ncv && VEC_SIZE(S->tag_val) == S->m_ncv && VEC_SIZE(S->tag_est) == S->m_ncv")],
-                 post=[("one flag per wanted Ritz value", "VEC_SIZE(S->m_ritz_conv) == S->m_nev"),
+                 pre=[("Ritz arrays hold ncv entries", "VEC_SIZE(S->m_ritz_val) == S->m_ncv && VEC_SIZE(S->m_ritz_est) == S->m_ncv && VEC_SIZE(S->tag_val) == S->m_ncv && VEC_SIZE(S->tag_est) == S->m_ncv"),
+                      ("flag array has its init() size (no reallocation)", "VEC_SIZE(S->m_ritz_conv) == S->m_nev && VEC_SIZE(S->tag_conv) == S->m_nev && 1 <= S->m_nev && S->m_nev <= S->m_ncv && S->m_ncv <= NMAX")],
+                 post=[("one flag per wanted Ritz value", "VEC_SIZE(S->m_ritz_conv) == S->m_nev && VEC_SIZE(S->tag_conv) == S->m_nev"),
                        ("documented criterion, element-wise: conv[i] <=> |est_i|*||f|| < tol*max(eps^(2/3), |theta_i|)",
                         "!(0 <= g_i && g_i < S->m_nev && %s && tol == tol && S->m_fac.m_beta == S->m_fac.m_beta) || "
                         "(S->m_ritz_conv[g_i] == (FMUL(%s(S->m_ritz_est[g_i]), S->m_fac.m_beta) < FMUL(tol, VMAX(%s(S->m_ritz_val[g_i]), VERIF_POW_0))))" % (notnan, ab, ab)),
@@ -280,7 +281,7 @@ def f_num_converged(gen, report, defs_out):
                        ("flags are computed from the current Ritz data", "S->st_conv == S->st_ritz"),
                        ("flag i is computed from value i and estimate i", "!(0 <= g_i && g_i < S->m_nev && S->tag_val[g_i] == S->tag_est[g_i]) || S->tag_conv[g_i] == S->tag_val[g_i]"),
                        ("all flags set <=> count == nev (at the Skolem index)", "!(0 <= g_i && g_i < S->m_nev) || ((ret < S->m_nev || S->m_ritz_conv[g_i]) && (ret > 0 || !S->m_ritz_conv[g_i]))")],
-                 frame=["S->cnt_conv", "S->st_conv"], frame_fresh=[("S->m_ritz_conv", "_Bool"), ("S->tag_conv", "Index")],
+                 frame=["S->cnt_conv", "S->st_conv"], frame_inplace=["S->m_ritz_conv", "S->tag_conv"],
                  real=hdr + ":num_converged")
     t = emit_solver_fn(hdr, cls, "num_converged", "num_converged", report, ret_c="Index", extra=extra,
                        pre=[pow_rule(defs_out)], contract=spec.frame_contract(), params={"tol": "Scalar"})
@@ -465,8 +466,8 @@ def sort_spec(gen, hdr, cname="sort_ritzpair", extra_post=(), extra_frame=()):
                  exc_post=[("rejected <=> sorting rule not supported by this solver family", "!%s && verif_exc == EXC_invalid_argument" % ok),
                            ("nothing modified when the rule is rejected", "S->cnt_conv == old_cnt && S->st_conv == old_stc && S->st_ritz == old_str")],
                  frame=["g_ia", "g_ib", "g_va", "g_vb"] + list(extra_frame),
-                 frame_fresh=[("S->m_ritz_val", "Ritz"), ("S->tag_val", "Index"), ("S->m_ritz_conv", "_Bool"), ("S->tag_conv", "Index")],
-                 frame_fresh_mat=["S->m_ritz_vec"],
+                 frame_inplace=["S->m_ritz_val", "S->tag_val", "S->m_ritz_conv", "S->tag_conv"],
+                 frame_inplace_mat=["S->m_ritz_vec"],
                  may_throw=[1],
                  olds=[("Index", "old_tv", "(0 <= g_p && g_p < S->m_nev) ? S->tag_val[g_p] : 0"), ("Index", "old_tc", "(0 <= g_p && g_p < S->m_nev) ? S->tag_conv[g_p] : 0"),
                        ("Index", "old_ct", "(0 <= g_p && g_p < S->m_nev) ? S->m_ritz_vec.coltag[g_p] : 0"), ("_Bool", "old_cv", "(0 <= g_p && g_p < S->m_nev) ? S->m_ritz_conv[g_p] : 0"),
@@ -770,7 +771,7 @@ def compress_V_spec():
                        ("residual norm is a norm", "F->m_beta >= (Scalar)0"), ("shapes preserved", FAC_INV[0][1]),
                        ("one clock tick", "g_clock == old_clock + 1 && F->st_fac == g_clock")],
                  frame=["F->g_valid_k", "F->m_beta", "F->m_fac_V.cell", "F->m_fac_H.cell", "F->st_fac", "g_clock"],
-                 frame_fresh=[("F->m_fac_f", "Scalar")],
+                 frame_inplace=["F->m_fac_f"],
                  frame_objs=["F->m_fac_V.colbuf"], olds=[("Index", "old_k", "F->m_k"), ("Index", "old_clock", "g_clock")], real=AH + ":compress_V")
 
 
@@ -846,7 +847,7 @@ def restart_spec(gen, retrieve_post):
                         "S->m_fac.m_k", "S->m_fac.g_valid_k", "S->m_fac.m_beta", "S->m_fac.m_fac_V.cell", "S->m_fac.m_fac_H.cell", "S->m_fac.m_fac_H.rows",
                         "S->m_fac.m_fac_H.cols", "S->m_fac.st_fac"],
                  frame_objs=["S->m_ritz_val", "S->m_ritz_est", "S->tag_val", "S->tag_est", "S->m_ritz_vec.coltag", "S->m_fac.m_fac_V.colbuf"] + (["S->m_fac.m_fac_H.colbuf"] if gen else []),
-                 frame_fresh=[("S->m_fac.m_fac_f", "Scalar")],
+                 frame_inplace=["S->m_fac.m_fac_f"],
                  may_throw=[1, 2, 7],
                  olds=[("Index", "old_ops", "g_ops"), ("Index", "old_cnt", "S->cnt_conv"), ("Index", "old_stc", "S->st_conv"), ("Index", "old_clock", "g_clock")],
                  real=hdr + ":restart")
@@ -876,3 +877,83 @@ def f_restart_herm(report, retrieve_post):
                        contract=spec.frame_contract(),
                        maythrow=["QR_compute", "QR_apply_YQ", "compress_H_tridiag", "compress_V", "factorize_from", "retrieve_ritzpair"])
     return t, spec
+
+
+# --------------------------------------------------------------------------- compute (both bases share the text shape)
+
+def compute_spec(gen, sort_post):
+    hdr = GB if gen else HB
+    return FSpec("compute", "Index", [("Solver *", "S"), ("SortRule", "selection"), ("Index", "maxit"), ("Scalar", "tol"), ("SortRule", "sorting")],
+                 pre=SOLVER_INV_PRE + [
+                     ("maxit bounded (cap on a machine integer)", "maxit <= 100000"),
+                     ("typestate: the object was initialised: step-1 factorization after init(), or the full one left by an earlier compute()",
+                      "S->m_fac.m_k == S->m_fac.g_valid_k && (S->m_fac.g_valid_k == 1 || S->m_fac.g_valid_k == S->m_ncv)"),
+                     ("iteration counter bounded", "0 <= S->m_niter && S->m_niter <= CAP")],
+                 post=[("counters only grow", "old_ops <= g_ops && 0 <= g_restarts && g_restarts <= 100000"),
+                       ("return value equals the number of flagged pairs the accessors will return (eigenvalues().size(), eigenvectors().cols())",
+                        "ret == S->cnt_conv"),
+                       ("at most nev", "0 <= ret && ret <= S->m_nev"),
+                       ("Successful exactly when all nev converged, NotConverging otherwise",
+                        "S->m_info == ((ret == S->m_nev) ? CompInfo_Successful : CompInfo_NotConverging)"),
+                       ("num_operations() equals the number of times the operator was really applied", "S->m_nmatop == g_ops"),
+                       ("at most maxit restarts", "g_restarts <= (maxit > 0 ? maxit : 0)"),
+                       ("work bound (additive form): every factorization call is paid for by the budget, one call per restart plus the first",
+                        "g_ops - old_ops <= g_budget && g_budget <= 2 * NMAX * (g_restarts + 1) && g_calls == g_restarts + 1"),
+                       ("convergence flags were computed from the Ritz data that is returned (no stale flags)", "!(ret > 0) || S->st_conv == S->st_ritz"),
+                       ("full factorization left behind", "S->m_fac.m_k == S->m_ncv && S->m_fac.g_valid_k == S->m_ncv"),
+                       ("shapes preserved", SHAPES)] + [(c[0], c[1].replace("sort_rule", "sorting")) for c in sort_post if "old_" not in c[1] and "g_p" not in c[1] and "accepted" not in c[0]],
+                 exc_post=[("counters only grow", "old_ops <= g_ops && 0 <= S->m_nmatop && S->m_nmatop <= g_ops"),
+                           ("exception type is a documented one and the operator's exception propagates unchanged; counter lags by at most the interrupted application",
+                            "(verif_exc == EXC_user ? g_ops == S->m_nmatop + 1 : (S->m_nmatop == g_ops && (verif_exc == EXC_invalid_argument || verif_exc == EXC_runtime_error)))"),
+                           ("object keeps consistent shapes (init() can be called again)", SHAPES)],
+                 frame=["S->m_nmatop", "S->m_niter", "S->m_info", "g_ops", "g_clock", "g_restarts", "g_budget", "g_calls", "S->st_ritz", "S->st_conv", "S->cnt_conv",
+                        "g_ia", "g_ib", "g_va", "g_vb", "g_shift_lo", "g_shift_n", "g_shifts_applied",
+                        "S->m_fac.m_k", "S->m_fac.g_valid_k", "S->m_fac.m_beta", "S->m_fac.m_fac_V.cell", "S->m_fac.m_fac_H.cell", "S->m_fac.m_fac_H.rows",
+                        "S->m_fac.m_fac_H.cols", "S->m_fac.st_fac", "S->g_backtransformed"],
+                 frame_inplace=["S->m_fac.m_fac_f", "S->m_ritz_val", "S->tag_val", "S->m_ritz_conv", "S->tag_conv"],
+                 frame_inplace_mat=["S->m_ritz_vec"],
+                 frame_objs=["S->m_ritz_est", "S->tag_est", "S->m_fac.m_fac_V.colbuf"] + (["S->m_fac.m_fac_H.colbuf"] if gen else []),
+                 may_throw=[1, 2, 7],
+                 olds=[("Index", "old_ops", "g_ops")], real=hdr + ":compute")
+
+
+COMPUTE_GHOST = "Index g_calls;   /* ghost: factorization calls paid from the budget in the current compute() */\n"
+
+
+def _compute_factorize(m):
+    a = [x.strip() for x in X.split_top(m.group(1))]
+    if len(a) != 2:
+        raise X.ExtractionBreak("compute: factorize_from call has %d leading arguments" % len(a))
+    return ("g_restarts = 0; g_calls = 1; const Index verif_from = (%s); g_budget = 2 * ((%s) - verif_from); S->g_backtransformed = 0; "
+            "factorize_from(&S->m_fac, verif_from, %s, &S->m_nmatop);" % (a[0], a[1], a[1]))
+
+
+def f_compute(gen, report, sort_post):
+    hdr, cls = (GB, "GenEigsBase") if gen else (HB, "HermEigsBase")
+    spec = compute_spec(gen, sort_post)
+    extra = accessor_rules(report) + [
+        ("factorize", r"S->m_fac\.factorize_from\((.*?), S->m_nmatop\);", _compute_factorize, {"max": 1}),
+        ("retrieve", r"(?<![\w>])retrieve_ritzpair\(selection\);", "retrieve_ritzpair(S, selection);", {"max": 1}),
+        ("num_converged", r"(?<![\w>])num_converged\(tol\)", "num_converged(S, tol)", {"min": 1, "max": 2}),
+        ("nev_adjusted", r"(?<![\w>])nev_adjusted\(nconv\)", "nev_adjusted(S, nconv)", {"max": 1}),
+        ("restart", r"(?<![\w>])restart\((\w+), selection\);", r"g_budget += 2 * (S->m_ncv - (\1)); g_calls++; restart(S, \1, selection); g_restarts++;", {"max": 1}),
+        ("sort", r"(?<![\w>])sort_ritzpair\(sorting\);", "sort_ritzpair(S, sorting);", {"max": 1}),
+    ]
+    inv = ("__CPROVER_assigns(i, nconv, nev_adj, verif_exc, S->m_nmatop, g_ops, g_clock, g_restarts, g_budget, g_calls, S->st_ritz, S->st_conv, S->cnt_conv, "
+           "g_ia, g_ib, g_va, g_vb, g_shift_lo, g_shift_n, g_shifts_applied, S->m_fac.m_k, S->m_fac.g_valid_k, S->m_fac.m_beta, S->m_fac.m_fac_V.cell, "
+           "S->m_fac.m_fac_H.cell, S->m_fac.m_fac_H.rows, S->m_fac.m_fac_H.cols, S->m_fac.st_fac, "
+           "__CPROVER_object_whole(S->m_fac.m_fac_f), __CPROVER_object_whole(S->m_ritz_conv), __CPROVER_object_whole(S->tag_conv), "
+           "__CPROVER_object_whole(S->m_ritz_val), __CPROVER_object_whole(S->m_ritz_est), __CPROVER_object_whole(S->tag_val), __CPROVER_object_whole(S->tag_est), "
+           "__CPROVER_object_whole(S->m_ritz_vec.coltag), __CPROVER_object_whole(S->m_fac.m_fac_V.colbuf)%s) "
+           "__CPROVER_loop_invariant(0 <= i && (i <= maxit || maxit < 0) && verif_exc == 0 && g_restarts == i && g_calls == i + 1) "
+           "__CPROVER_loop_invariant(S->m_nmatop == g_ops && old_ops_l <= g_ops && g_ops - old_ops_l <= g_budget && 0 <= g_budget && g_budget <= 2 * NMAX * (i + 1)) "
+           "__CPROVER_loop_invariant(0 <= g_clock && g_clock <= old_clock_l + 2 + 3 * i) "
+           "__CPROVER_loop_invariant(S->m_fac.m_k == S->m_ncv && S->m_fac.g_valid_k == S->m_ncv && S->m_fac.m_beta >= (Scalar)0 && %s) "
+           "__CPROVER_loop_invariant(0 <= nconv && nconv <= S->m_nev && 0 <= S->cnt_conv && S->cnt_conv <= S->m_nev && (i == 0 || nconv == S->cnt_conv)) "
+           "__CPROVER_decreases(maxit - i)") % ((", __CPROVER_object_whole(S->m_fac.m_fac_H.colbuf)" if gen else ""), SHAPES)
+    t = emit_solver_fn(hdr, cls, "compute", "compute", report, ret_c="Index", extra=extra, loops={0: inv},
+                       contract=spec.frame_contract(), params={"tol": "Scalar"},
+                       maythrow=["factorize_from", "retrieve_ritzpair", "restart", "sort_ritzpair"],
+                       members=SOLVER_MEMBERS + ["subspace_dim"] if False else None,
+                       pre_body=" const Index old_ops_l = g_ops; const Index old_clock_l = g_clock;")
+    return COMPUTE_GHOST + t, spec
